@@ -29,7 +29,7 @@ class Check(c01.Check):
         cases = []
         for i in range(n):
             big = rng.random() < 0.06
-            g = c01.GraphGen(rng, max_events=300 if big else 40)
+            g = c01.GraphGen(rng, max_events=300 if big else 40, bad_rate=0.004 if big else 0.02)
             p = g.program(i)
             r = rng.random()
             if r < 0.25:
@@ -40,23 +40,86 @@ class Check(c01.Check):
             cases.append(p)
         return cases
 
+    def extra_static(self):
+        """control names in slot order with their default values and rates, for parameters of every
+        rate and array defaults: the bytes and the library's reader vs an independent layout rule
+        (groups ir, tr, ar, kr in that order; declaration order inside a group)."""
+        import random
+        from fractions import Fraction as F
+        rng = random.Random(f'C02:desc:{self.seed}')
+        sigs = []
+        for _ in range(40 if self.tier == 'quick' else 400):
+            n = rng.randint(1, 7)
+            sig = []
+            for k in range(n):
+                rate = rng.choice([None, None, 'kr', 'ir', 'tr', 'ar'])
+                size = rng.choice([1, 1, 1, 2, 3, 4])
+                vals = [rng.choice([0, 1, 2, -1, 0.5, 0.25, 440, 7]) for _ in range(size)]
+                sig.append([f'p{k}', rate, vals if size > 1 else vals[0]])
+            sigs.append(sig)
+        res, err = common.run_impl('c01', 'desc_probe', {'sigs': sigs}, timeout=900)
+        if res is None:
+            self.notes.append('desc probe failed: ' + err[-300:])
+            return []
+        out = []
+        self._desc_probe = len(res)
+        for sig, r in zip(sigs, res):
+            if 'error' in r:
+                out.append({'what': f'definition with parameters {sig} not built/read: {r["error"]}',
+                            'signature': 'c02:desc-probe-error', 'case': {'sig': sig}})
+                continue
+            order = {'ir': 0, 'tr': 1, 'ar': 2, 'kr': 3, None: 3}
+            rname = {'ir': 'scalar', 'tr': 'control', 'ar': 'audio', 'kr': 'control', None: 'control'}
+            slots, idx = {}, 0
+            flat = []
+            for g in range(4):
+                for name, rate, d in sig:
+                    if order[rate] == g:
+                        vals = d if isinstance(d, list) else [d]
+                        slots[name] = (idx, vals, rname[rate])
+                        flat += vals
+                        idx += len(vals)
+            want_pn = [[name, slots[name][0]] for name, _, _ in sig]
+            want_params = [str(F(v)) for v in flat]
+            problem = None
+            if [list(x) for x in r['pnames']] != want_pn:
+                problem = f'name table {r["pnames"]} != {want_pn}'
+            elif r['params'] != want_params:
+                problem = f'parameter defaults {r["params"]} != {want_params}'
+            elif r['desc_names'] != [name for name, _, _ in sig]:
+                problem = f'reader control names {r["desc_names"]}'
+            else:
+                for name, (i0, vals, rn) in slots.items():
+                    got = r['desc'].get(name)
+                    wv = [str(F(v)) for v in vals] if len(vals) > 1 else str(F(vals[0]))
+                    if got != [i0, rn, wv]:
+                        problem = f'reader recovers {name} as {got}, expected {[i0, rn, wv]}'
+                        break
+            if problem:
+                out.append({'what': f'parameters {sig}: {problem}', 'signature': 'c02:desc-layout', 'case': {'sig': sig}})
+        return out
+
     def oracle(self, case, io):
         canon = io['canon']
         params = case.get('params', [])
         base = 1 if params else 0
         if len(case['name']) > 255 and not canon.startswith('ERR'):
             return {'what': f'definition name of {len(case["name"])} characters produced bytes', 'signature': 'c02:longname'}
-        # a constructor of a side-effecting unit was handed None / NaN / a string: must be rejected
+        # a unit that was handed None / NaN / a string and is part of the emitted definition: the
+        # graph cannot be compiled and must have been rejected
         for j, e in enumerate(case['events']):
             if e['t'] == 'atom' and any(a[0] == 'bad' for a in e['ins']):
-                f = (io.get('flags') or {}).get(str(base + j))
-                if f and not f['dce'] and canon.startswith('OK'):
-                    return {'what': f'graph with an invalid input to {e["cls"]} (event {base + j}) was compiled to bytes',
+                survives = bool((io.get('positions') or {}).get(str(base + j)))
+                if survives and canon.startswith('OK'):
+                    return {'what': f'graph with an invalid input ({[a[1] for a in e["ins"] if a[0] == "bad"]}) to '
+                                    f'{e["cls"]}.{e["ctor"]} (event {base + j}) was compiled to bytes',
                             'signature': 'c02:invalid-accepted'}
+        if io.get('nan_const'):
+            return {'what': 'emitted definition carries a NaN/inf constant', 'signature': 'c02:nan-constant'}
         if not canon.startswith('OK'):
             return None
         sem = io.get('sem')
-        if sem and sem.get('signature', '').startswith('scgf:'):
+        if sem and sem.get('signature', '').startswith(('scgf:', 'c02:')):
             return sem
         # the library's own reader recovers the description
         desc, parsed = io.get('desc') or {}, io.get('parsed') or {}
